@@ -7,6 +7,8 @@ Request:  `H <privileged 0|1> <k> <nops> op*`
   op := `load <thread> <nnp 0|1> <flags> <policy>`   policy := `A` (assemble fails) | `E` (encode fails) | `P <len> <ok 0|1>`
       | `supported <thread>`
       | `loadfree <nnp> <flags> <policy>`            (an unpinned goroutine: runs on thread k+1, may not migrate if locked)
+      | `setnnp <thread>`                            (the exported SetNoNewPrivs() on a pinned thread)
+      | `loadunpin <thread> <nnp> <flags> <policy>`  (a goroutine that starts on that thread without being pinned to it)
 Reply:    one token group per op, separated by ` | `:
   `<result> <nfilters nnp>*(k+1 threads)`   result := `nil` | `errno:<n>` | `other` | `true` | `false`
 -/
@@ -55,6 +57,22 @@ partial def ops (k : Nat) : Nat → List String → St → Option St
       ops k n rest' { w := { w' with sched := [] }, next := st.next + 1,
                       out := st.out ++ [showErr err ++ showThreads w' (k + 2)] }
     | _, _ => none
+  | n+1, "setnnp" :: t :: rest, st =>
+    -- the exported SetNoNewPrivs() on a pinned thread
+    match t.toNat? with
+    | some t =>
+      let w := { st.w with cur := t }
+      let r := sysPrctl PR_SET_NO_NEW_PRIVS 1 0 0 0 w
+      ops k n rest { st with w := r.2.2, out := st.out ++ [showErr (if r.2.1 = 0 then .nil else .errno r.2.1) ++ showThreads r.2.2 (k + 2)] }
+    | none => none
+  | n+1, "loadunpin" :: t :: nnp :: flags :: rest, st =>
+    -- a load by a goroutine that starts on thread t but is not pinned to it; the schedule oracle tries to move it to thread k
+    match t.toNat?, flags.toNat?, parsePolicy rest with
+    | some t, some fl, (some pol, rest') =>
+      let w := { st.w with cur := t, sched := [t, k] }
+      let (err, w') := LoaderSpec.load { noNewPrivs := nnp == "1", flag := fl, policy := pol st.next } w
+      ops k n rest' { w := { w' with sched := [] }, next := st.next + 1, out := st.out ++ [showErr err ++ showThreads w' (k + 2)] }
+    | _, _, _ => none
   | n+1, "supported" :: t :: rest, st =>
     match t.toNat? with
     | some t =>
